@@ -79,13 +79,47 @@ class _Writer:
             return out
         return [WEntry(path, v, list(guards))]
 
+    def filtered_copy(self, v):
+        """{k: x for k, x in D.items() if <test on x>} over a local dict D: every entry of D gains the test (x := the entry's value) as a guard"""
+        if not (isinstance(v, ast.DictComp) and len(v.generators) == 1):
+            return None
+        g = v.generators[0]
+        it = g.iter
+        if not (isinstance(it, ast.Call) and isinstance(it.func, ast.Attribute) and it.func.attr == "items" and isinstance(it.func.value, ast.Name)
+                and it.func.value.id in self.vars and isinstance(g.target, ast.Tuple) and len(g.target.elts) == 2
+                and all(isinstance(e, ast.Name) for e in g.target.elts)):
+            return None
+        kn, vn = g.target.elts[0].id, g.target.elts[1].id
+        if not (isinstance(v.key, ast.Name) and v.key.id == kn and isinstance(v.value, ast.Name) and v.value.id == vn):
+            return None
+        out = []
+        for e in self.vars[it.func.value.id]:
+            extra = []
+            for test in g.ifs:
+                class Sub(ast.NodeTransformer):
+                    def visit_Name(self, node, e=e):
+                        return e.value if node.id == vn else node
+                t2 = Sub().visit(ast.parse(ast.unparse(test), mode="eval").body)
+                extra.append((t2, True))
+            out.append(WEntry(e.path, e.value, list(e.guards) + extra, e.may_be_empty_dict))
+        return out
+
     def run(self):
         self.block(self.fn.node.body, [])
         if self.returned is None:
             raise AnalysisError(f"{self.fn.fq}: no returned dictionary found")
         return self.returned
 
+    @staticmethod
+    def _always_returns(stmts) -> bool:
+        return bool(stmts) and isinstance(stmts[-1], (ast.Return, ast.Raise))
+
+    def _add_returned(self, entries):
+        # several return statements: the writer's table is the union (each entry keeps the guards of its own path)
+        self.returned = list(entries) if self.returned is None else self.returned + list(entries)
+
     def block(self, stmts, guards):
+        guards = list(guards)
         for st in stmts:
             if isinstance(st, ast.Expr) and isinstance(st.value, ast.Constant):
                 continue
@@ -95,6 +129,10 @@ class _Writer:
                 if val is None:
                     continue
                 if isinstance(tg, ast.Name):
+                    fc = self.filtered_copy(val)
+                    if fc is not None:
+                        self.vars[tg.id] = fc
+                        continue
                     if isinstance(val, ast.Dict):
                         self.vars[tg.id] = [WEntry(e.path, e.value, e.guards[len(guards):], e.may_be_empty_dict) for e in self.dict_entries(val, guards)]
                     elif isinstance(val, ast.Call) and isinstance(val.func, ast.Attribute) and isinstance(val.func.value, ast.Name) \
@@ -120,12 +158,21 @@ class _Writer:
             if isinstance(st, ast.If):
                 self.block(st.body, guards + [(st.test, True)])
                 self.block(st.orelse, guards + [(st.test, False)])
+                # early exit: what follows only runs when the test had the other outcome
+                if self._always_returns(st.body) and not self._always_returns(st.orelse):
+                    guards = guards + [(st.test, False)]
+                elif self._always_returns(st.orelse) and not self._always_returns(st.body):
+                    guards = guards + [(st.test, True)]
                 continue
             if isinstance(st, ast.Return):
                 if isinstance(st.value, ast.Dict):
-                    self.returned = self.dict_entries(st.value, guards)
+                    ents = self.dict_entries(st.value, guards)
+                    self._add_returned(ents)  # (`return {}` adds nothing; the entries of the other returns carry the negated guard)
                 elif isinstance(st.value, ast.Name) and st.value.id in self.vars:
-                    self.returned = self.vars[st.value.id]
+                    self._add_returned([WEntry(e.path, e.value, list(guards) + [g for g in e.guards if g not in guards], e.may_be_empty_dict) for e in self.vars[st.value.id]]
+                                       if guards else self.vars[st.value.id])
+                elif self.filtered_copy(st.value) is not None:
+                    self._add_returned(self.filtered_copy(st.value))
                 else:
                     raise AnalysisError(f"{self.fn.fq}: returns {ast.unparse(st.value) if st.value else None}")
                 continue
